@@ -2,7 +2,8 @@
    Theorem statements only; proofs in Proofs/ConsumerStop.v (stop), ConsumerC13.v / ConsumerC13Top.v (start Deferred).
    Model: Model/Consumer.v (afkak/consumer.py:290-1131).  Never weaken a statement here. *)
 From AV Require Import Base.Util Model.Consumer Proofs.ConsumerBase Proofs.ConsumerFrame Proofs.ConsumerC13
-  Proofs.ConsumerStop Proofs.ConsumerStopOk Proofs.ConsumerC13Top Proofs.ConsumerInv Proofs.ConsumerShut Proofs.ConsumerRun.
+  Proofs.ConsumerStop Proofs.ConsumerStopOk Proofs.ConsumerC13Top Proofs.ConsumerInv Proofs.ConsumerShut Proofs.ConsumerRun
+  Proofs.ConsumerFuel.
 Open Scope Z_scope.
 
 (* In EVERY state in which stop() can be called (not already inside stop(), not inside the auto-commit timer callback
@@ -105,6 +106,20 @@ Theorem C13_shutdown_commits_step : forall fuel s e s' o,
   forallb (shutd_ok (c_group (s_cf s))) o = true /\ s_cf s' = s_cf s.
 Proof. exact shutdown_commits_step. Qed.
 Print Assumptions C13_shutdown_commits_step.
+
+(* The fuel hypothesis of the run-level theorems does not depend on the fuel chosen: a run that never ran out of fuel is
+   the same run (same states, same outputs) under every larger fuel; likewise one nested execution and one event.
+   (That SOME fuel suffices for every input - it needs fuel linear in the number of processor blocks and commit waiters -
+   is not proved; the harness derives the fuel from the input size and confirms it on every case by trace equality.) *)
+Theorem C13_fuel_monotone : forall f f', (f <= f')%nat -> forall evs s,
+  forallb (fun t => fuel_ok (match t with (_, _, o, _) => o end)) (run_steps f s evs) = true ->
+  run_steps f' s evs = run_steps f s evs.
+Proof. exact run_steps_mono. Qed.
+Print Assumptions C13_fuel_monotone.
+Theorem C13_fuel_monotone_nested : forall f f' k, (f <= f')%nat ->
+  forall s r s' o, run f k s = (r, s', o) -> fuel_ok o = true -> run f' k s = (r, s', o).
+Proof. exact run_mono. Qed.
+Print Assumptions C13_fuel_monotone_nested.
 
 (* ---------------- non-vacuity: stop() with a commit in flight, a reply parked behind a pending processor ----------- *)
 Definition ex_cfg := mkCfg true 1 true 0 None 7.
